@@ -57,7 +57,10 @@ DESCS = ['AMZN MKTP US*1234', 'plain', 'desc </script> tail', '</SCRIPT >', '</s
          '<script>alert(1)</script>', 'say "hi"', 'back\\slash', 'trail\\', '\\"', "it's", 'line\nbreak\ttab', '  ', PH[0], PH[1],
          JS_PH, 'x ' + JS_PH + ' y', '<script>' + JS_PH + '</script>', 'café €5', '\U0001f600\U0001f4b0', '\x00\x1f\x7f',
          'window.spendingData = 1;', ';', ']]>', '&amp;&lt;/script&gt;', '</scrip', '</scriptx>', '<', '</', '{"a": 1}', '﻿�',
-         '</style>', '/* x */', 'K</ſcript>']
+         '</style>', '/* x */', 'K</ſcript>',
+         # sequences special to HTML inside <script>, and to JavaScript-but-not-JSON escaping
+         '<!--', 'POS <!-- pending --> COFFEE', '<!--<script>', '<!-- </script> -->', '-->', '--!>', '<!', '<?php ?>', '<![CDATA[ x ]]>',
+         '<\\!--', '<\\/script>', '\\!', '\\x3c', "\\'", '\u2028\u2029', '&lt;!--', '<!- -', '<!--' * 3]
 TAGSETS = [[], [], [], ['food'], ['income'], ['Income'], ['transfer'], ['TRANSFER'], ['investment'], ['income', 'transfer'],
            ['a"b'], ['</script>'], ['tag with space', 'é'], [JS_PH], ['food', 'recurring']]
 CATS = [('Food', 'Grocery'), ('Food', 'Restaurant'), ('Bills', 'Power'), ('', ''), ('Unknown', 'Unknown'), ('Unknown', 'x'),
@@ -231,6 +234,21 @@ def gen_cases(seed, n):
         tpl = None if i % 14 == 0 else rnd.randrange(len(TEMPLATES))
         cases.append(case(txns, views=rnd.choice(VIEWSETS), tpl=tpl, cur=rnd.choice(CURRENCIES),
                           sources=rnd.choice([['Amex'], [], ['A', 'B </script>']])))
+    # ---- size boundaries (placed last: the Coq samples above are filled from the small cases) ------------
+    # one merchant owning N transactions, N just above round numbers (a cap at 25/100/256/1000/... drops rows);
+    # the exact round numbers are the controls
+    def many(name, n, c='Transit', s='Fares'):
+        return [T(name, f'FARE {i:05d}', 176 + 16 * (i % 7), c=c, s=s, date=f'2025-{1 + i % 12:02d}-{1 + i % 28:02d}') for i in range(n)]
+    for nsz in (25, 26, 51, 100, 101, 129, 201, 256, 257, 501, 513, 1000, 1001, 1025, 2001, 2049, 4097, 5001):
+        cases.append(case(many('Transit', nsz) + [T('Books', 'b', 1280, c='Fun', s='Books')],
+                          views=VIEWSETS[2] if nsz % 2 else None))
+    # many merchants in one category / one view, many categories, many views, many tags, a long description
+    cases.append(case([T(f'M{i:04d}', 'p', 64 + i, c='Food', s='Grocery') for i in range(1001)], views=VIEWSETS[2]))
+    cases.append(case([T(f'M{i:04d}', 'p', 64 + i, c=f'Cat{i:03d}', s=f'Sub{i:03d}') for i in range(257)]))
+    cases.append(case([T('Acme', 'p', 640), T('Bolt', 'q', 320, c='Bills', s='Power')],
+                      views=''.join(f'[V{i:03d}]\nfilter: True\n\n' for i in range(129))))
+    cases.append(case([T('Acme', 'p', 640, tags=[f't{i:03d}' for i in range(257)], extra={f'k{i:03d}': str(i) for i in range(129)})]))
+    cases.append(case([T('Acme', 'x' * 70000 + '</script>' + 'y' * 70000, 640), T('N' * 5000, 'p', 320)]))
     return cases
 
 
@@ -609,7 +627,16 @@ def shrink(case, sig, rounds=8):
     for _ in range(rounds):
         cands = []
         txns = cur['txns']
-        for i in range(len(txns)):
+        big = len(txns) > 40
+        if big:                                   # delta debugging by chunks
+            k = 8
+            step = (len(txns) + k - 1) // k
+            for off in range(0, len(txns), step):
+                cands.append(dict(cur, txns=txns[:off] + txns[off + step:]))
+                cands.append(dict(cur, txns=txns[off:off + step]))
+        for nm in sorted({t['m'] for t in txns}) if len({t['m'] for t in txns}) > 1 else []:
+            cands.append(dict(cur, txns=[t for t in txns if t['m'] != nm]))     # drop a whole merchant
+        for i in range(len(txns) if not big else 0):
             if len(txns) > 1:
                 cands.append(dict(cur, txns=txns[:i] + txns[i + 1:]))
         if cur['views'] is not None:
@@ -618,7 +645,7 @@ def shrink(case, sig, rounds=8):
             cands.append(dict(cur, tpl=TEMPLATES[0], tpl_id=0))
         if cur['currency'] != '${amount}':
             cands.append(dict(cur, currency='${amount}'))
-        for i, t in enumerate(txns):
+        for i, t in enumerate(txns if not big else []):
             for k, simple in (('d', 'x'), ('tags', []), ('extra', None), ('raw', None), ('loc', None), ('c', 'Food'), ('s', 'Grocery'),
                               ('src', 'S'), ('a', 640), ('a', -640), ('date', '2025-01-05')):
                 if t[k] != simple:
